@@ -187,6 +187,7 @@ type c03Quota struct {
 	RV         int
 	MaxLowered bool
 	Imported   bool // an assigned pod was moved in from the default quota (migration): that bypasses admission
+	UpdWindow  bool // a pod update without node hit a parked pod reserved in the default quota inside the window (signature attribution only)
 	Window     bool // a parked pod was reserved into / rolled back on this quota's path inside the window (signature attribution only)
 	Children   []string
 }
@@ -263,6 +264,7 @@ type c03Case struct {
 	special  bool // some pods go to the default / system quota in this case
 	late     []*c03Late
 	lateErr  bool // a late bind error happened in this case (signature attribution only)
+	parkUpd  bool // the "+parked-pod-updates" units: status updates also reach pods still parked in the default quota
 	podUpd   bool // the "+pod-updates" units: status updates of pods and the late bind error (Unreserve after the binding is visible)
 	baseDims []corev1.ResourceName
 	tight    bool // small cluster: runtime quotas well below max
@@ -843,7 +845,19 @@ func (h *c03Case) taintWindow(q *c03Quota) {
 // wrong verdict or an overshoot on exactly these quotas; the kind of symptom is in the message
 const c03WindowSig = "migration-window:reserve-or-unreserve-of-parked-pod-not-applied-to-holding-quota"
 
+// a reserved pod's amount has to stay charged from Reserve to Unreserve / delete; an ordinary pod update (no node yet)
+// that reaches a parked pod reserved in the default quota inside the window moves the pod to its own quota and has to
+// carry the reservation along
+const c03UpdWindowSig = "migration-window:pod-update-of-reserved-parked-pod-drops-reservation"
+
 func (h *c03Case) windowSig(q *c03Quota, sig string) string {
+	upd := q.UpdWindow
+	for _, a := range h.chain(q) {
+		upd = upd || a.UpdWindow
+	}
+	if upd {
+		return c03UpdWindowSig
+	}
 	tainted := q.Window
 	for _, a := range h.chain(q) {
 		tainted = tainted || a.Window
@@ -1005,9 +1019,27 @@ func (h *c03Case) podStatusUpdate(t *rapid.T, pd *c03Pod) {
 		nw.Status.Phase = corev1.PodRunning
 	}
 	pd.Obj = nw
+	window := h.inWindow(pd)
 	h.p.OnPodUpdate(old, nw)
 	h.c.Class("pod-status-update:" + c03StateName[pd.State])
 	h.logf("podStatusUpdate %s (%s)", pd.Name, c03StateName[pd.State])
+	if window {
+		// resolved to the new quota while the default quota holds the pod: the manager moves the pod over, and whatever
+		// the pod holds (a reservation, a binding) has to move with it
+		if pd.State == c03Reserved {
+			h.c.Class("status-update-of-reserved-parked-pod-in-window")
+			own := h.quotas[pd.Label]
+			own.UpdWindow = true
+			for _, a := range h.chain(own) {
+				a.UpdWindow = true
+			}
+			def := h.quotas[pd.Quota]
+			def.UpdWindow = true
+		} else {
+			h.c.Class("status-update-of-" + c03StateName[pd.State] + "-parked-pod-in-window")
+		}
+		h.moveToOwnQuota(pd, "pod update in the window")
+	}
 	if pd.State == c03Limbo {
 		pd.State = c03Bound
 		own := h.quotas[pd.Quota]
@@ -1530,9 +1562,9 @@ func c03PinSteps() {
 	}
 }
 
-func c03Run(t *testing.T, unit string, rtOn, parOn bool) { c03RunX(t, unit, rtOn, parOn, false) }
+func c03Run(t *testing.T, unit string, rtOn, parOn bool) { c03RunX(t, unit, rtOn, parOn, false, false) }
 
-func c03RunX(t *testing.T, unit string, rtOn, parOn, podUpd bool) {
+func c03RunX(t *testing.T, unit string, rtOn, parOn, podUpd, parkUpd bool) {
 	rec := vk.New(t, "C03", unit)
 	p := c03NewPlugin(t)
 	c03PinSteps()
@@ -1550,7 +1582,7 @@ func c03RunX(t *testing.T, unit string, rtOn, parOn, podUpd bool) {
 			rapid.Uint64().Draw(t, "salt")
 		}
 		h := c03NewCase(t, p, c, rtOn, parOn)
-		h.podUpd = podUpd
+		h.podUpd, h.parkUpd = podUpd, parkUpd
 
 		doSchedule := func(t *rapid.T) {
 			if h.dead {
@@ -1734,9 +1766,9 @@ func c03RunX(t *testing.T, unit string, rtOn, parOn, podUpd bool) {
 				// mostly the ones that wait for exactly this event
 				var all, limbo []string
 				for _, n := range h.podNames() {
-					if pd := h.pods[n]; !pd.Parked {
+					if pd := h.pods[n]; !pd.Parked || h.parkUpd {
 						all = append(all, n)
-						if pd.State == c03Limbo {
+						if pd.State == c03Limbo || (h.inWindow(pd) && pd.State == c03Reserved) {
 							limbo = append(limbo, n)
 						}
 					}
@@ -1772,14 +1804,22 @@ func TestVerifC03RuntimeOffParentOn(t *testing.T)  { c03Run(t, "runtime-off/pare
 // the same machine plus ordinary pod update events and the late bind error (separate tests: the extra actions change
 // the draw sequence, the recorded regress files of the four tests above stay valid)
 func TestVerifC03PodUpdatesRuntimeOnParentOn(t *testing.T) {
-	c03RunX(t, "runtime-on/parent-on+pod-updates", true, true, true)
+	c03RunX(t, "runtime-on/parent-on+pod-updates", true, true, true, false)
 }
 func TestVerifC03PodUpdatesRuntimeOffParentOff(t *testing.T) {
-	c03RunX(t, "runtime-off/parent-off+pod-updates", false, false, true)
+	c03RunX(t, "runtime-off/parent-off+pod-updates", false, false, true, false)
 }
 func TestVerifC03PodUpdatesRuntimeOnParentOff(t *testing.T) {
-	c03RunX(t, "runtime-on/parent-off+pod-updates", true, false, true)
+	c03RunX(t, "runtime-on/parent-off+pod-updates", true, false, true, false)
 }
 func TestVerifC03PodUpdatesRuntimeOffParentOn(t *testing.T) {
-	c03RunX(t, "runtime-off/parent-on+pod-updates", false, true, true)
+	c03RunX(t, "runtime-off/parent-on+pod-updates", false, true, true, false)
+}
+
+// the +pod-updates machine with status updates also delivered to pods that are still parked in the default quota
+func TestVerifC03ParkedPodUpdatesRuntimeOnParentOn(t *testing.T) {
+	c03RunX(t, "runtime-on/parent-on+parked-pod-updates", true, true, true, true)
+}
+func TestVerifC03ParkedPodUpdatesRuntimeOffParentOff(t *testing.T) {
+	c03RunX(t, "runtime-off/parent-off+parked-pod-updates", false, false, true, true)
 }
